@@ -174,6 +174,7 @@ type c25Side struct {
 	filter   *recFilter
 	reframe  *reframe13
 	reframe12 *reframe12
+	shortWrite string // a Write that returned n < len(p) together with a nil error (io.Writer contract)
 	wrote    []byte // accepted by Write (full writes only counted when err == nil)
 	attempted []byte
 	read     []byte
@@ -256,6 +257,9 @@ func execC25(t *testing.T, scAny any, keepLog bool) *Outcome {
 						p := pattern(me, len(sd.attempted), n)
 						sd.attempted = append(sd.attempted, p...)
 						k, err := c.Write(p)
+						if err == nil && k != len(p) {
+							sd.shortWrite = fmt.Sprintf("Write of %d bytes returned (%d, nil)", len(p), k)
+						}
 						sd.wrote = append(sd.wrote, p[:k]...)
 						sd.recAfter = append(sd.recAfter, sd.filter.idx)
 						sd.wsize = append(sd.wsize, n)
@@ -345,6 +349,11 @@ func c25Check(sc *c25Scenario, sides [2]*c25Side, total [2]int, o *Outcome) *Fai
 			if rf.Lost {
 				return Failf("c25.reframe.sync", "a record of the application epoch does not open under the RFC 8446 key schedule", "%s dir %d", tag, d)
 			}
+		}
+	}
+	for d := 0; d < 2; d++ {
+		if sides[d].shortWrite != "" {
+			return Failf("c25.write_count", "Write reported fewer bytes than it was given without an error (a caller relying on the count re-sends bytes)", "%s side %d: %s", tag, d, sides[d].shortWrite)
 		}
 	}
 	anyFired := false
